@@ -268,7 +268,13 @@ def evaluate(ctx, ev, cfg, clean, case, recs, stats):
             js["reported"] = True
             for unit, what, dt in js["pf"]:
                 if (dt is None and js["d3"]) or (dt is not None and dt in tainted):
-                    ctx.violation(D3_UNIT, what, {"input": D3_INPUT, "case": step_id, "obs": rec["obs"], "outcome": rec["outcome"]})
+                    # the defect D3 (fixed in /repo by df54c5e): reported with the concrete fault position; the
+                    # signature is what a known_findings.json entry of status "known" would have to match
+                    ctx.violation(D3_UNIT, "Saver.save_from swallows the failure of a pooled chunk write (D3, regression of fix "
+                                  "df54c5e): %s [%s, fired %s, outcome %s]" % (what, cfg_name(cfg), rec["fired"], rec["outcome"]),
+                                  {"input": {"config": cfg, "steps": case["steps"][: si + 1]}, "class": D3_INPUT,
+                                   "obs": rec["obs"], "outcome": rec["outcome"], "target": case.get("target")},
+                                  signature={"unit": D3_UNIT, "input": D3_INPUT})
                 else:
                     ctx.violation(unit, "%s [%s, fired %s, outcome %s]" % (what, cfg_name(cfg), rec["fired"], rec["outcome"]),
                                   {"input": {"config": cfg, "steps": (case["steps"] + [{"plan": [], "target": r2["target"], "extra": True}
@@ -387,8 +393,10 @@ def evaluate(ctx, ev, cfg, clean, case, recs, stats):
             rejects = js.get("rejects", [])
             for k, idx, prefix in rejects:
                 if js["d3"] and runner.key_dtype(k) in tainted:
-                    ctx.violation(D3_UNIT, "the protocol automaton rejects the implementation's trace of %s at event %d: %s" % (k, idx, prefix),
-                                  {"input": D3_INPUT, "case": step_id, "key": k, "prefix": prefix})
+                    ctx.violation(D3_UNIT, "Saver.save_from swallows the failure of a pooled chunk write (D3, regression of fix df54c5e): "
+                                  "the protocol automaton rejects the implementation's trace of %s at event %d: %s" % (k, idx, prefix),
+                                  {"input": {"config": cfg, "steps": case["steps"][: si + 1]}, "class": D3_INPUT, "key": k, "prefix": prefix},
+                                  signature={"unit": D3_UNIT, "input": D3_INPUT})
                 else:
                     ctx.violation("protocol", "the protocol automaton rejects the implementation's trace of %s at event %d: %s" % (k, idx, prefix),
                                   {"input": "corr:C04/protocol/accepts", "case": step_id, "key": k, "prefix": prefix},
@@ -606,9 +614,10 @@ def run(ctx):
     stats = {k: 0 for k in ("replay", "request", "rejected", "inconclusive", "variant_both", "variant_pinned", "variant_fixed",
                             "variant_neither", "worker_fault_both", "worker_fault_pinned", "worker_fault_fixed",
                             "worker_fault_neither", "d3_cases")}
-    configs = thorough_configs() if (ctx.thorough or ctx.escalated()) else QUICK_CONFIGS
+    configs = thorough_configs() if ctx.thorough else QUICK_CONFIGS
     # seconds for the fault sweep (counted from its start); what does not fit is reported in the evidence
-    budget = float(os.environ.get("C04_BUDGET", 0) or ((24 * 60) if ctx.thorough else 120))
+    # (anchor / constant drift escalates the quick tier: thorough fault actions, longer budget)
+    budget = float(os.environ.get("C04_BUDGET", 0) or ((24 * 60) if ctx.thorough else 150 if ctx.escalated() else 120))
     nproc = min(16, os.cpu_count() or 4)
     dist = {}
     crossx = []
@@ -630,12 +639,30 @@ def run(ctx):
                     c["id"] = (ci, j)
                 all_cases.append(cases)
             ev.run()
-            # interleave the configurations so that a cut by the time budget is spread evenly
-            order = []
-            for j in range(max((len(c) for c in all_cases), default=0)):
-                for cases in all_cases:
-                    if j < len(cases):
-                        order.append(cases[j])
+            # order (deterministic for a given VERIF_SEED): first one case per (configuration, operation kind
+            # [saver thread / pool worker, metadata / chunk file], fault action), so that even a run cut short by
+            # the time budget has exercised every kind of operation with every kind of fault; then everything
+            # else in a seeded shuffle
+            first, rest, seen_cls = [], [], {}
+            rank = {"raise": 0, "plugin_exception": 0, "exit_before": 1, "raise_mid": 2, "exit_mid": 2, "exit_after": 3,
+                    "raise_after": 4, "multi": 5}
+            for cases in all_cases:
+                for c in cases:
+                    sid = c["steps"][0]["plan"][0][0] if c["steps"][0].get("plan") else None
+                    cls = (c["id"][0], c["kind"], c["worker"], bool(sid) and sid[2].endswith("metadata.json"), c["action"])
+                    if cls not in seen_cls:
+                        # sort key: fault action first (an OSError at every kind of operation of every
+                        # configuration comes before the first process death), then round-robin over configurations
+                        seen_cls[cls] = len([1 for k2 in seen_cls if k2[0] == cls[0] and k2[4] == cls[4]])
+                        first.append((rank.get(c["action"], 9), seen_cls[cls], c["id"][0], c))
+                    else:
+                        rest.append(c)
+            first = [x[3] for x in sorted(first, key=lambda x: x[:3])]
+            ctx.rng.shuffle(rest)
+            order = first + rest
+            ctx.coverage["priority_cases"] = len(first)
+            first_ids = {c["id"] for c in first}
+            prio_done = 0
             by_id = {c["id"]: c for c in order}
             t_sweep = time.time()
             done_cases = 0
@@ -666,13 +693,15 @@ def run(ctx):
                 c["_vis_before"] = vis_chain(r["recs"])
                 evaluate(ctx, ev, cfg, clean, c, r["recs"], stats)
                 done_cases += 1
+                if tuple(r["id"]) in first_ids:
+                    prio_done += 1
                 if done_cases % 200 == 0:
                     print("C04: %d/%d cases, %.0fs" % (done_cases, len(order), time.time() - t_sweep), file=sys.stderr)
                 fired = bool(r["recs"] and (r["recs"][0]["fired"] or r["recs"][0].get("crash_at")))
                 key = "%s|%s|%s" % (cfg_name(cfg), c["kind"], c["action"])
                 dist[key] = dist.get(key, 0) + 1
                 ctx.count("fault_sweep", len(r["recs"]), 1 if fired else 0)
-                if len(crossx) < 40 and ctx.rng.random() < 0.02:
+                if len(crossx) < 40 and (r["id"][0] * 7919 + r["id"][1] * 31 + ctx.seed) % 37 == 0:
                     crossx.append((cfg, clean, c, r["recs"]))
             skipped = len(order) - done_cases
             ev.run()
@@ -689,10 +718,12 @@ def run(ctx):
     ctx.coverage["model_checks"] = stats
     ctx.coverage["cases_total"] = sum(len(c) for c in all_cases)
     ctx.coverage["cases_run"] = done_cases
+    ctx.coverage["priority_cases_run"] = prio_done
     ctx.coverage["cases_skipped_by_time_budget"] = skipped
     ctx.coverage["coq_crosscheck"] = {"equations": n_x, "failures": len(xfails)}
-    matches = "pinned (as in the pinned tree: failures of pooled chunk writes are swallowed)" if stats["worker_fault_pinned"] \
-        else "fixed (futures inspected)" if stats["worker_fault_fixed"] else "undetermined (no worker-thread fault was exercised)"
+    matches = "PINNED (failures of pooled chunk writes are swallowed: D3, the state before fix df54c5e)" if stats["worker_fault_pinned"] \
+        else "fixed (futures inspected; expected since fix df54c5e)" if stats["worker_fault_fixed"] \
+        else "undetermined (no worker-thread fault was exercised)"
     ctx.coverage["save_from_variant_matched"] = matches
     ctx.notes.append("Saver.save_from matches model variant: " + matches)
     if skipped:
